@@ -1,6 +1,7 @@
 SPECIFICATION Spec
 CONSTANTS
   Mode = "laws"
+  Lite = FALSE
   Returns = TRUE
   Groups = {1, 2, 3}
 INVARIANT Laws
